@@ -507,6 +507,7 @@ fn cmd_server(args: &[String], seed: u64, n: u64, out: &str, summary: &str) {
                 "streams" => gen_healthy(&mut rr, sid, true),
                 "faulty" => gen_faulty(&mut rr, sid),
                 "wfault" => gen_wfault(&mut rr, sid),
+                "hotstream" => gen_hot_stream(&mut rr, sid),
                 "fair" => gen_fair(&mut rr, sid, false),
                 "fairtrans" => gen_fair(&mut rr, sid, true),
                 "fairmixed" => gen_fair_mixed(&mut rr, sid),
